@@ -229,11 +229,28 @@ let tr_replay toks =
     let ((r, rho), acc) = tr_step_info fops le f s in
     let s' = tr_step fops le 0.99 f fd s in
     let trial = List.map2 ( +. ) s.tr_pt r.cg_step in
-    (* the same step with the coordinates in reverse order: the same problem, every sum of the model accumulated in the
-       opposite order.  [spread] = how far the CG step moves under a change of the summation order alone *)
-    let sr = { s with tr_pt = List.rev s.tr_pt; tr_grad = List.rev s.tr_grad; tr_hess = List.rev (List.map List.rev s.tr_hess) } in
-    let rr = tr_solve fops le sr in
-    let spread = List.fold_left2 (fun a x y -> Float.max a (Float.abs (x -. y))) 0.0 r.cg_step (List.rev rr.cg_step) in
+    (* the same step with the coordinates permuted (reversed; rotated by n/2 + 1): the same problem, every sum of the model
+       accumulated in another order.  [spread] = how far the CG step moves under a change of the summation order alone *)
+    let perm_solve (pf : float list -> float list) (pfm : float list list -> float list list) (inv : float list -> float list) =
+      let sp = { s with tr_pt = pf s.tr_pt; tr_grad = pf s.tr_grad; tr_hess = pfm (List.map pf s.tr_hess) } in
+      let rp = tr_solve fops le sp in
+      (List.fold_left2 (fun a x y -> Float.max a (Float.abs (x -. y))) 0.0 r.cg_step (inv rp.cg_step), rp) in
+    let rot k l = let rec go i acc = function [] -> (List.rev acc, []) | x :: t -> if i = 0 then (List.rev acc, x :: t) else go (i - 1) (x :: acc) t in
+      let (a, b) = go k [] l in b @ a in
+    let kk = if n <= 1 then 0 else (n / 2 + 1) mod n in
+    let (sp1, rr) = perm_solve List.rev List.rev List.rev in
+    let (sp2, rr2) = perm_solve (fun l -> rot kk l) (fun l -> rot kk l) (fun l -> rot ((n - kk) mod (max n 1)) l) in
+    (* ... and with gradient and Hessian entries moved by one unit in the last place (deterministic pseudo-random signs): the
+       conditioning of the sub-problem with respect to perturbations of the size of a single rounding error *)
+    let lcg = ref 12345 in
+    let jit x = lcg := (!lcg * 1103515245 + 12345) land 0x3fffffff; x *. (1.0 +. float_of_int ((!lcg lsr 16) mod 3 - 1) *. epsilon_float) in
+    let sp3 = ref 0.0 in
+    for _ = 1 to 4 do
+      let (d, _) = perm_solve (List.map jit) (fun m -> m) (fun l -> l) in
+      sp3 := Float.max !sp3 d
+    done;
+    let spread = Float.max (Float.max sp1 sp2) !sp3 in
+    let rr = if rr2.cg_exit <> r.cg_exit || rr2.cg_iters <> r.cg_iters then rr2 else rr in
     let dout = Printf.sprintf "pt=%s val=%s delta=%s exit=%s iters=%d pred=%s rho=%s acc=%d sol=%s trial=%s spread=%s rexit=%s riters=%d"
         (fv_str s'.tr_pt) (f_str s'.tr_val) (f_str s'.tr_delta) (tr_exit_name (int_of_nat r.cg_exit)) (int_of_nat r.cg_iters)
         (f_str r.cg_pred) (f_str rho) (if acc then 1 else 0) (fv_str r.cg_step) (fv_str trial) (f_str spread)
